@@ -165,7 +165,14 @@ NEUTRAL = {"attrs": [], "items": [{"kind": "struct", "attrs": [TS_ATTR], "ident"
                                    "fields": ("named", [field([], "name", t_path("String"))])}]}
 
 
-def make_case(entries, lang, multi, trigger_first=True, cfg=None):
+# a second crate that needs helpers of its own (an unsigned integer, the unit type, a generic parameter): each module of a folder run
+# must define / import what *it* uses, whatever an earlier module of the run already wrote
+NEEDY = {"attrs": [], "items": [{"kind": "struct", "attrs": [TS_ATTR], "ident": "Needy", "generics": [("ty", "T")],
+                                 "fields": ("named", [field([], "count", t_path("u32")), field([], "small", t_path("Vec", [t_path("u16")])),
+                                                      field([], "nothing", ("tuple", [])), field([], "t", t_path("T"))])}]}
+
+
+def make_case(entries, lang, multi, trigger_first=True, cfg=None, needy=False):
     items, desc = make_items(entries, lang=lang)
     f = {"attrs": [], "items": items}
     cfg = dict(CFG[lang] if cfg is None else cfg)
@@ -175,10 +182,10 @@ def make_case(entries, lang, multi, trigger_first=True, cfg=None):
     else:
         a, b = ("alpha", "beta") if trigger_first else ("beta", "alpha")
         files = [{"crate": a, "file_name": a + ".out", "path": a + "/src/lib.rs", "file": f},
-                 {"crate": b, "file_name": b + ".out", "path": b + "/src/lib.rs", "file": NEUTRAL}]
+                 {"crate": b, "file_name": b + ".out", "path": b + "/src/lib.rs", "file": NEEDY if needy else NEUTRAL}]
         trig = a
     return dict(entries=entries, lang=lang, multi=multi, files=files, desc=desc, cfg=cfg, trigger_crate=trig,
-                trigger_first=trigger_first)
+                trigger_first=trigger_first, needy=needy)
 
 
 # ----------------------------------------------------------------------------- the oracle (implementation text)
@@ -504,7 +511,7 @@ def evaluate(check, cases, label):
     rans = [l2.norm(a) for a in runner([r[1] for r in reqs])]
     for c, (mreq, rreq, texts), ma, ra in zip(cases, reqs, mans, rans):
         lang = c["lang"]
-        key = (label, lang, c["multi"], c["trigger_first"], tuple(c["entries"]), json.dumps(c["cfg"], sort_keys=True))
+        key = (label, lang, c["multi"], c["trigger_first"], c.get("needy", False), tuple(c["entries"]), json.dumps(c["cfg"], sort_keys=True))
         trig = any(leaf != "String" for _, _, leaf in c["entries"])
         check.saw(key, nontrivial=trig)
         check.count("%s %s %s" % (lang, "multi" if c["multi"] else "single", label))
@@ -633,6 +640,9 @@ def language_cases(lang, thorough, depth, mdepth):
                     # both generation orders: the crate with the trigger before and after the neutral crate
                     cases.append(make_case([(pos, ch, leaf)], lang, True, trigger_first=True))
                     cases.append(make_case([(pos, ch, leaf)], lang, True, trigger_first=False))
+                    if len(ch) <= 1:
+                        cases.append(make_case([(pos, ch, leaf)], lang, True, trigger_first=True, needy=True))
+                        cases.append(make_case([(pos, ch, leaf)], lang, True, trigger_first=False, needy=True))
     yield "alone", cases
     # together: pairs
     small = [(ch, leaf) for ch in [(), ("Vec",), ("Vec", "Vec")] for leaf in leaves]
